@@ -40,6 +40,7 @@ def run(facts, rep):
     d3_tokens(facts, rep)
     d4_wait(facts, rep)
     d5_ring(facts, rep)
+    d6_token_once(facts, rep)
 
 
 def d1_lock(facts, rep):
@@ -311,3 +312,44 @@ def d5_ring(facts, rep):
         n += 1
         rep.ob('D5', 'K4', fn, 'grow(m) leaves array_size >= m', ok, 'the new size is not forced up to the requested minimum before it becomes array_size')
     rep.floor('D5', 2, 'ring store + grow post-condition')
+
+
+
+# ---------------------------------------------------------------------------------------------------------------
+def d6_token_once(facts, rep):
+    """All serial_in_order filters use one common order: the token an item received at the first ordered filter.  So the
+    token of an item is assigned once: every store to task_info::my_token is dominated by an edge on which the item is known
+    to have no token yet (`my_token_ready` false) or to be brand new (`my_at_start` true), or it is the reset to the
+    no-token state together with my_token_ready = false."""
+    n = 0
+    for fn in facts.fns.values():
+        if 'parallel_pipeline.cpp' not in fn.file:
+            continue
+        if fn.kind == 'ctor' or fn.p.endswith('::operator='):
+            continue        # memberwise copies move an item together with its token
+        stores = [(pos, sx, l, r) for pos, sx, l, r in assignments(fn) if last_member(fn, l) == 'my_token']
+        if not stores:
+            continue
+
+        def fresh(a, truth):
+            nd = fn.n(fn.strip(a))
+            if nd.get('k') == 'member' and nd.get('n') == 'my_token_ready':
+                return not truth
+            if nd.get('k') == 'member' and nd.get('n') == 'my_at_start':
+                return truth
+            return False
+        fe = edges_where(fn, fresh)
+        for pos, sx, l, r in stores:
+            n += 1
+            if fn.cv(r) == 0:
+                # reset: must also clear the ready flag in the same function
+                clr = [1 for p2, s2, l2, r2 in assignments(fn) if last_member(fn, l2) == 'my_token_ready' and fn.cv(r2) == 0]
+                rep.ob('D6', 'K4', fn, 'clearing my_token goes together with my_token_ready = false', bool(clr),
+                       'token cleared but still marked ready', ln=fn.nodes[sx].get('ln'), key_extra='clr%s' % fn.nodes[sx].get('ln'))
+                continue
+            ok, wit = dominated_by_edges(fn, pos, fe)
+            rep.ob('D6', 'K4', fn, 'an item\'s token is assigned only while it has none (line %s)' % fn.nodes[sx].get('ln'), ok,
+                   'a token that the item already carries (its position at the first serial_in_order filter) can be overwritten: later '
+                   'serial_in_order filters then process the items in a different order than the first one: ' + wit,
+                   ln=fn.nodes[sx].get('ln'), key_extra=str(fn.nodes[sx].get('ln')))
+    rep.floor('D6', 3, 'stores to task_info::my_token')
